@@ -467,6 +467,9 @@ func (x *Exec) frameObligations(fr *Frame, penv *SpecEnv, exit *State) {
 		if cur.S == old.S {
 			continue
 		}
+		if h == "GH$sort$stable" {
+			continue // bookkeeping of the model (which sort ran last), not program state
+		}
 		srt := x.S.heaps[h]
 		var goal Term
 		if strings.HasPrefix(srt, "(Array Int ") {
